@@ -19,7 +19,12 @@ func ReportCommon(h *History, rep Reporter) {
 	for p, n := range h.PathUsed {
 		rep.Count("path."+p.String(), int64(n))
 	}
-	if h.KMMon != nil { // key manager support
+	ReportKeyManager(h, rep)
+}
+
+// ReportKeyManager emits the key manager counters of a history (key manager support; no-op without a key manager).
+func ReportKeyManager(h *History, rep Reporter) {
+	if h.KMMon != nil {
 		rep.Count("histories_with_key_manager", 1)
 		h.KMMon.Report(rep)
 		for _, k := range []string{"km-policy-update", "km-ephemeral-secret", "km-master-secret-proposal", "km-churp-create", "km-churp-update", "km-churp-apply", "km-churp-confirm"} {
